@@ -422,6 +422,7 @@ func runC04(c *mon.Ctx) {
 	c04RequiredMembers(c)
 	c04NotJSON(c)
 	c04UnpairedSurrogates(c)
+	c04OverTheByteLimit(c)
 	c.Floor("hash_failing_cases", 200)
 	c.Floor("hash_matching_cases", 100)
 	c.Floor("redactable_only_cases", 100)
@@ -583,6 +584,44 @@ func c04UnpairedSurrogates(c *mon.Ctx) {
 			continue
 		}
 		orig := string(ev.JSON())
+		// the same event with U+FFFD in its content, and copies in which that character is written as two escapes the
+		// first of which is half a surrogate pair (one character to a canonicaliser that folds them, two to every decoder)
+		ps2 := ps
+		ps2.Content = []byte("{\"body\":\"pay \uFFFD1\",\"msgtype\":\"m.text\",\"nested\":{\"k\uFFFD\":\"v\"}}")
+		if ev2, err := buildEvent(ver, ps2, id, baseTime); err == nil {
+			orig2 := string(ev2.JSON())
+			for _, esc := range []string{`\ud800\ud800`, `\uD83D\uD83D`, `\udc00\ud800`, `\ud800\u0041`, `\udbff\ufffd`} {
+				for kind, text := range map[string]string{
+					"replacement-char-in-content-value-respelled-as-two-escapes": strings.Replace(orig2, "pay \uFFFD1", "pay "+esc+"1", 1),
+					"replacement-char-in-content-name-respelled-as-two-escapes":  strings.Replace(orig2, "\"k\uFFFD\"", "\"k"+esc+"\"", 1),
+				} {
+					c.Case("unpaired-surrogate:"+kind+":"+string(ver), map[string]any{"version": ver, "escape": esc, "text": text}, func() {
+						c.Nontrivial(string(ver) + "|surrogate|" + kind + "|" + esc)
+						c.Count("unpaired_surrogate_cases")
+						if text == orig2 {
+							c.Failf("harness:surrogate-tampering-did-not-apply", "%s v%s", kind, ver)
+							return
+						}
+						var p gmsl.PDU
+						var err error
+						site, msg, pan := mon.Guard(func() { p, err = impl.NewEventFromUntrustedJSON([]byte(text)) })
+						if pan {
+							c.Failf("untrusted:panic:"+site, "NewEventFromUntrustedJSON panics: %s", msg)
+							return
+						}
+						if err != nil || p == nil {
+							c.Count("unpaired_surrogate_refused")
+							return
+						}
+						if !p.Redacted() {
+							c.Failf("hashmatch:altered-content-returned-unredacted:"+kind, "v%s: an event whose content was altered by writing U+FFFD as the two escapes %s is returned unredacted (ID %s), content %s", ver, esc, p.EventID(), p.Content())
+						}
+					})
+				}
+			}
+		} else {
+			c.Note("replacement-char scenario: cannot build the event for v%s: %v", ver, err)
+		}
 		for _, esc := range []string{`\udead`, `\ud800`, `\uDFFF`} {
 			for kind, text := range map[string]string{
 				"appended-to-content-value": strings.Replace(orig, `"pay 1"`, `"pay 1`+esc+`"`, 1),
@@ -614,6 +653,82 @@ func c04UnpairedSurrogates(c *mon.Ctx) {
 			}
 		}
 	}
+}
+
+// c04OverTheByteLimit: events whose type or state key is over the 255-byte limit only (not over 255 code points) come
+// back from the parser together with a "too large but persistable" report, and callers keep them. Such an event is an
+// event like any other: when its hash fails, what comes back is the redacted form.
+func c04OverTheByteLimit(c *mon.Ctx) {
+	id := gen.NewIdentity(c.RandShared("id"), "a.example", "ed25519:k1")
+	long := strings.Repeat("\u20ac", 100) // 100 code points, 300 bytes
+	for vi, ver := range sortedVersions() {
+		t := ref.Traits(string(ver))
+		if t == nil || !c.Mine(vi) {
+			continue
+		}
+		impl := gmsl.MustGetRoomVersion(ver)
+		sk := "k"
+		ps := protoSpec{Type: "com.example.state", StateKey: &sk, Sender: "@u:a.example", RoomID: "!r:a.example", Content: []byte(`{"body":"pay 1","extra":{"k":"v"}}`), Depth: 5}
+		if t.Domainless {
+			ps.RoomID = "!" + strings.Repeat("A", 43)
+		}
+		ev, err := buildEvent(ver, ps, id, baseTime)
+		if err != nil {
+			c.Note("byte-limit scenario: cannot build the event for v%s: %v", ver, err)
+			continue
+		}
+		for _, field := range []string{"state_key", "type"} {
+			for _, hashOK := range []bool{true, false} {
+				tv := ref.MustParse(ev.JSON())
+				tv.Set(field, ref.S(long))
+				setContentHash(tv, t)
+				if !hashOK {
+					tv.Get("content").Set("body", ref.S("pay 1000"))
+					tv.Set("com.example.extra_top_level", ref.S("x"))
+				}
+				text := gen.Plain().Bytes(tv)
+				name := fmt.Sprintf("over-the-byte-limit:%s:hash-matches=%v", field, hashOK)
+				c.Case(name+":"+string(ver), map[string]any{"version": ver, "event": string(text)}, func() {
+					c.Nontrivial(string(ver) + "|" + name)
+					var p gmsl.PDU
+					var err error
+					site, msg, pan := mon.Guard(func() { p, err = impl.NewEventFromUntrustedJSON(text) })
+					if pan {
+						c.Failf("untrusted:panic:"+site, "NewEventFromUntrustedJSON panics: %s", msg)
+						return
+					}
+					if p == nil || (err != nil && !isPersistable(err)) {
+						c.Count("over_the_byte_limit_refused")
+						return
+					}
+					c.Count("over_the_byte_limit_returned")
+					got, _, perr := ref.Parse(p.JSON())
+					if perr != nil {
+						c.Failf("untrusted:json-invalid", "JSON() invalid: %v", perr)
+						return
+					}
+					recv := tv.Clone()
+					if hashOK {
+						if p.Redacted() || !ref.Equal(got, recv) {
+							c.Failf("hashok:fields-altered:"+name, "v%s: an event over the byte limit whose hash matches does not come back intact (redacted=%v)\n in  %s\n out %s", ver, p.Redacted(), ref.Canon(recv), ref.Canon(got))
+						}
+						return
+					}
+					wantRed := ref.Redact(t.Redaction, recv)
+					if !p.Redacted() {
+						c.Failf("hashfail:not-flagged-redacted:"+name, "v%s: an event over the byte limit whose content hash fails is returned (error: %v) and not flagged redacted\n%s", ver, err, text)
+					}
+					if !ref.Equal(got, wantRed) {
+						c.Failf("hashfail:json-not-redacted-form:"+name, "v%s: JSON() of a hash-failing event over the byte limit is not its redacted form\n got  %s\n want %s", ver, ref.Canon(got), ref.Canon(wantRed))
+					}
+					if cv, _, e := ref.Parse(p.Content()); e != nil || !ref.Equal(cv, wantRed.Get("content")) {
+						c.Failf("hashfail:content-accessor-leaks:"+name, "v%s: Content() = %s exposes more than the redacted content", ver, p.Content())
+					}
+				})
+			}
+		}
+	}
+	c.Floor("over_the_byte_limit_returned", 4)
 }
 
 func orNull(v *ref.Value) *ref.Value {
